@@ -2,6 +2,7 @@ import ERP.Lemmas.StepInv
 import ERP.Lemmas.RealOps
 import ERP.Spec.Sys
 import ERP.Lemmas.GenArith
+import ERP.Lemmas.GenTies
 /-! # C03 — Leaving a region re-synchronises the tool position
 
 `phys` executes what the filter forwards, `virt` executes the unfiltered file (`ERP.Spec.Sys`).
